@@ -5,11 +5,11 @@
     and the theorems carry their assumed behaviour as explicit premises ([Oracles]). *)
 From Teleport Require Import Base.Bytes Base.Outcome Base.AList Model.Registry Model.RegistryExport Model.RegistryCheck
   Proofs.RegistryMap Proofs.Registry Proofs.RegistryInst Proofs.RegistryHistory Proofs.RegistrySorted
-  Gen.RegistryGen Proofs.RegistrySource Proofs.RegistryMonitor.
+  Proofs.RegistryMonitor.
 
 (** GetID is collision-free ON HEX-ADDRESS TEXTS (all the registry ever hashes: sha256 of text|denom collides for
     arbitrary strings, e.g. ("a|b","c") and ("a","b|c"), so nothing stronger may be assumed - see
-    [C12_real_getid_meets_oracles] for what the real function needs) and never empty; the check-summed text of a 20-byte
+    [C12_real_getid_meets_oracles] in Props/C12SourceGetID.v for what the real function needs) and never empty; the check-summed text of a 20-byte
     address is a hex address that parses back to it. *)
 Definition Oracles (hid : bytes -> bytes -> bytes) (canon : bytes -> bytes) : Prop :=
   (forall t d t' d', is_hex_address t = true -> is_hex_address t' = true -> hid t d = hid t' d' -> t = t' /\ d = d') /\
@@ -272,39 +272,10 @@ Theorem C12_hex_looking_denom_is_valid :
 Proof. vm_compute. repeat split; reflexivity. Qed.
 Print Assumptions C12_hex_looking_denom_is_valid.
 
-(** The tie to the source, re-checked on every run on terms REGENERATED from the Go code (tools/gotocoq/registry ->
-    Gen/RegistryGen.v): the string GetID hashes is  text ++ separator ++ Denoms[0]  with a separator no hex address
-    contains; CreateDenom / CreateDenomDescription are the model's [create_denom] / [create_descr]; the Owner constants
-    are the model's; every function of the repository that calls a registry write method is one the model has (a new
-    writer makes this fail: the model would be incomplete), and only the six primitives write the three prefixes, each
-    the prefix the model's map of that name stands for. *)
-Theorem C12_source_tie :
-  getid_shape_ok getid_parts = true /\
-  (forall text, sprintf_source create_denom_fmt create_denom_args text = Some (create_denom text)) /\
-  (forall text, sprintf_source create_descr_fmt create_descr_args text = Some (create_descr text)) /\
-  lookup_name (B "OWNER_MODULE") owner_values = Some OWNER_MODULE /\
-  lookup_name (B "OWNER_EXTERNAL") owner_values = Some OWNER_EXTERNAL /\
-  writers_ok registry_writers = true /\ raw_ok registry_raw_access = true.
-Proof.
-  split; [exact getid_source_shape|]. split; [exact create_denom_source|]. split; [exact create_descr_source|].
-  split; [exact (proj1 owner_source)|]. split; [exact (proj2 owner_source)|]. exact writers_source.
-Qed.
-Print Assumptions C12_source_tie.
-
-(** Hence the oracle hypotheses about [hid] are met by the REAL GetID (the regenerated concatenation under ANY hash
-    that is collision-free with 32-byte digests - sha256, idealised): they are assumptions about sha256 only. *)
-Theorem C12_real_getid_meets_oracles : forall H : bytes -> bytes,
-  (forall x y, H x = H y -> x = y) -> (forall x, length (H x) = 32%nat) ->
-  let hid := hid_of_source H getid_parts in
-  (forall t d t' d', is_hex_address t = true -> is_hex_address t' = true -> hid t d = hid t' d' -> t = t' /\ d = d') /\
-  (forall t d, hid t d <> []) /\
-  (forall t d, hid t d = H (t ++ B "|" ++ d)).
-Proof.
-  intros H Hi Hl. cbv zeta.
-  destruct (source_getid_meets_oracles H Hi Hl getid_parts getid_source_shape) as [A B0].
-  split; [exact A|]. split; [exact B0|]. intros t d. unfold hid_of_source. rewrite getid_source_is_text_bar_denom, app_nil_r. reflexivity.
-Qed.
-Print Assumptions C12_real_getid_meets_oracles.
+(** The tie to the source (GetID's hashed string, CreateDenom / CreateDenomDescription, the Owner constants, who can
+    write the registry) is re-checked on every run on terms REGENERATED from the Go code: Props/C12SourceGetID.v
+    ([C12_source_getid], [C12_real_getid_meets_oracles]), C12SourceFormats.v, C12SourceOwners.v, C12SourceWriters.v -
+    one file per item, so that an item that cannot be determined breaks its own obligation only. *)
 
 (** Non-vacuity: the oracle hypotheses are satisfiable ... *)
 Example C12_oracles_satisfiable : Oracles hid0 canon0.
